@@ -24,6 +24,8 @@ THEOREMS = [
     "BeyondVerif.C19.sso_self_inverse_a",
     "BeyondVerif.C19.sso_self_inverse_e",
     "BeyondVerif.C19.sso_node_rate",
+    "BeyondVerif.C19.sso_self_inverse_i_via_a",
+    "BeyondVerif.C19.sso_self_inverse_i_via_e",
     "BeyondVerif.C19.lambert_fg",
     "BeyondVerif.C19.lambert_fg_universal",
     "BeyondVerif.C19.lambert_scan_exit",
@@ -125,7 +127,6 @@ NOT_COVERED = [
 OPEN = [
     "the bplane model is hand-written; tied to the code by correspondence only (TrSel of this module translates the head of _lambert and the arithmetic of beta; bplane needs vector-valued expressions)",
     "at cr[2] = 0 the request cannot be 'matched' (a polar transfer is neither pro- nor retrograde): what is proved there is that a proper angle is chosen and that the two requests are the two ways round",
-    "sso i -> a -> i and i -> e -> i round trips (modes starting from an inclination) are checked by the oracle only",
 ]
 RULE = ("correspondence: random inputs from ctx.rng through the real functions and the compiled Lean model: lambert scalar functions (z<0, 0, >0; y<0 gives non-finite on both sides), "
         "full _lambert on arcs cut from orbits (both directions, short/long way, small angles) and on hand-written geometry (coordinate planes, planes through one axis, exact-zero components of "
@@ -848,6 +849,19 @@ def check_sso(out, rng, preset=None):
         out.fail("sso-self-inverse-a", "sso(e, i=sso(a, e)) does not give back a", inp, observed=a2, expected=a)
     if not (abs(e2 * e2 - e * e) <= 1e-11):
         out.fail("sso-self-inverse-e", "sso(a, i=sso(a, e)) does not give back e", inp, observed=e2, expected=e)
+    # modes starting from an inclination (theorems sso_self_inverse_i_via_a / _via_e): a perturbed retrograde inclination
+    i0 = min(math.pi, i + rng.uniform(0.0, 0.05))
+    a3 = float(sso(e=e, i=i0))
+    if math.isfinite(a3) and a3 > 0 and sso_in_domain(a3, e):
+        i3 = float(sso(a=a3, e=e))
+        if not abs(i3 - i0) <= 1e-8:
+            out.fail("sso-self-inverse-i-via-a", "sso(a=sso(e, i), e) does not give back i", dict(inp, i=i0), observed=i3, expected=i0)
+    i1 = max(math.pi / 2, i - rng.uniform(0.0, 0.02))
+    e3 = float(sso(a=a, i=i1))
+    if math.isfinite(e3) and 0 <= e3 < 1:
+        i4 = float(sso(a=a, e=e3))
+        if not abs(i4 - i1) <= 1e-8:
+            out.fail("sso-self-inverse-i-via-e", "sso(a, e=sso(a, i)) does not give back i", dict(inp, i=i1), observed=i4, expected=i1)
     # node drift of the J2 propagator
     O0 = rng.uniform(0.5, 5.5)
     T = rng.choice([3600.0, 86400.0, 10 * 86400.0])
